@@ -240,12 +240,15 @@ func (c *c35Check) command(x string, source bool) string {
 	}
 	if back != x || !ok {
 		if strings.HasSuffix(x, channelid.CommandChannelSuffix) {
-			if l, rr, derr := channelid.DecodePersonChannel(back); derr != nil || !c.admissible(l) || !c.admissible(rr) {
-				p.rank = 1 // prefer an example whose reversed id is itself the person channel of two admissible users
+			alias := ""
+			if l, rr, derr := channelid.DecodePersonChannel(back); derr != nil || !c.admissible(l) || !c.admissible(rr) || channelid.EncodePersonChannel(l, rr) != back {
+				p.rank = 1 // prefer an example whose reversed id is itself the canonical person channel of two admissible users
+			} else if xl, xr, xerr := channelid.DecodePersonChannel(x); xerr == nil {
+				alias = fmt.Sprintf(" [the person channel of users %q and %q has the id of the command channel of users %q and %q]", xl, xr, l, rr)
 			}
 			c.bad("C35:command-mapping-not-reversible:source-id-ends-with-command-suffix", p,
-				"source channel id %q (built from UIDs the user API admits) ends with the command suffix: ToCommandChannel(%q) = %q (unchanged: the channel is its own command channel), FromCommandChannel(that) = (%q,%v), and ToCommandChannel(%q) = %q is the same id - two different source channels share one command-channel id, so the mapping cannot be reversed",
-				x, x, cx, back, ok, back, channelid.ToCommandChannel(back))
+				"source channel id %q (built from UIDs the user API admits) ends with the command suffix: ToCommandChannel(%q) = %q (unchanged: the channel is its own command channel), FromCommandChannel(that) = (%q,%v), and ToCommandChannel(%q) = %q is the same id - two different source channels share one command-channel id, so the mapping cannot be reversed%s",
+				x, x, cx, back, ok, back, channelid.ToCommandChannel(back), alias)
 			return "source-id:NOT-REVERSIBLE(suffix)"
 		}
 		c.bad("C35:command-mapping-not-reversible", p, "FromCommandChannel(ToCommandChannel(%q)=%q) = (%q,%v), want (%q,true)", x, cx, back, ok, x)
